@@ -210,7 +210,11 @@ func (x *Exec) absCell(st *State, obj int, idx Term) (int, bool) {
 	if arr.ElemGen != nil {
 		val = arr.ElemGen(st, idx)
 	} else {
-		val = VLazy{Typ: arr.Elem, Name: fmt.Sprintf("%s[%s]", arr.Name, idx.S)}
+		name := fmt.Sprintf("%s[%s]", arr.Name, idx.S)
+		if arr.Havocked {
+			name = "havoc:" + name
+		}
+		val = VLazy{Typ: arr.Elem, Name: name}
 	}
 	arr = st.heap[obj].(*VAbsArr) // ElemGen may have touched the heap
 	cp := *arr
